@@ -312,7 +312,11 @@ func (rc *refCat) objChildren(o *Obj) []any {
 		}
 	}
 	for _, p := range o.Props {
-		out = append(out, rc.propNode(p.Key, p.V))
+		n := rc.propNode(p.Key, p.V)
+		if p.KeyRef {
+			n.Set("isKeyUserTypeRef", true)
+		}
+		out = append(out, n)
 	}
 	return out
 }
@@ -350,6 +354,12 @@ func (rc *refCat) propNode(key string, v Val) Unordered {
 	case "obj":
 		n.Set("tokenType", "object").Set("type", "object").Set("children", rc.objChildren(v.Obj))
 		rules = append(rules, allOfRules(v.Obj)...)
+	case "arrobj":
+		item := U("tokenType", "object", "type", "object", "children", rc.objChildren(v.Obj), "optional", true)
+		if r := allOfRules(v.Obj); r != nil {
+			item.Set("rules", r)
+		}
+		n.Set("tokenType", "array").Set("type", "array").Set("children", []any{item})
 	}
 	if v.Optional {
 		rules = append(rules, U("key", "optional", "tokenType", "boolean", "scalarValue", "true"))
@@ -381,13 +391,16 @@ func usedOfObj(o *Obj, add func(string)) {
 		add(b)
 	}
 	for _, p := range o.Props {
+		if p.KeyRef {
+			add(p.Key)
+		}
 		switch p.V.Kind {
 		case "ref", "arrref", "typed":
 			add(p.V.Ref)
 		case "or":
 			add(p.V.Ref)
 			add(p.V.Ref2)
-		case "obj":
+		case "obj", "arrobj":
 			usedOfObj(p.V.Obj, add)
 		}
 	}
@@ -409,7 +422,7 @@ func (rc *refCat) transitiveBases(o *Obj, out map[string]bool) {
 			}
 		}
 		for _, p := range o.Props {
-			if p.V.Kind == "obj" {
+			if p.V.Obj != nil {
 				allBasesInside(p.V.Obj, seen)
 			}
 		}
@@ -423,7 +436,7 @@ func (rc *refCat) transitiveBases(o *Obj, out map[string]bool) {
 			}
 		}
 		for _, p := range o.Props {
-			if p.V.Kind == "obj" {
+			if p.V.Obj != nil {
 				walk(p.V.Obj)
 			}
 		}
